@@ -106,6 +106,13 @@ def merge(ctx, tk):
         ok = True if (r0 == {first} and r1 == {other}) else (False if (r0 == {other} and r1 == {first}) else None)
         ctx.decide("C16.a", f, "every ufunc call of the merge takes the first operand's value on the left and the second's on the right", ok,
                    "operands derive from (%s, %s)" % (sorted(r0), sorted(r1)), node=c.node, engine="E4")
+        # the ufunc sees the operands' own values: a conversion to a common type first changes which loop numpy picks
+        # (int64 with uint64 is compared through float64; np.ldexp(float, float) does not exist)
+        conv = [x for a_ in c.a[1] for x in walk(a_) if x.k == "call" and ((x.a[0].k == "attr" and x.a[0].a[1] == "astype") or
+                                                                           (np_call(x, {"asarray", "asanyarray", "array"}) and "dtype" in dict(x.a[2])))]
+        ctx.decide("C16.a", f, "the ufunc receives the operands' run values as they are (numpy chooses the type rules)", False if conv else True,
+                   "`%s` converts an operand before the ufunc sees it: mixed signed/unsigned 64-bit operands are combined through float64 and lose exactness above 2**53" % (
+                       conv[0] if conv else "",), node=c.node, key="unconverted:%s" % getattr(n, "lineno", 0), engine="E4")
     # lookups: which run of X is current at the boundaries of Y
     for n in fa.cfg.stmts():
         if n.kind == "stmt" and isinstance(n.ast, ast.Assign):
@@ -212,16 +219,25 @@ def concatenate(ctx, tk):
         comps = [c for c in walk(ev) if c.k == "comp"]
         what = "each operand's run starts are shifted by the total size of the operands before it"
         ok = None
-        if comps:
-            c = comps[0]
+        zc = [c_ for c_ in comps if c_.a[2] and c_.a[2][0].k == "call" and call_name(c_.a[2][0]) == "zip"]
+        if zc or comps:
+            c = (zc or comps)[0]
             it = c.a[2][0]
             if it.k == "call" and call_name(it) == "zip" and len(it.a[1]) == 2:
                 arrs, offs = it.a[1]
                 alg = layout.SeqAlg(lambda t: t.k == "comp" and t.a[1].k == "attr" and t.a[1].a[1] == "size" and t.a[2][0].k == "param" and t.a[2][0].a[0] == p)
                 v = alg.ev(offs)
                 ok_off = None if v is None else (tuple(v) == layout.OFFSETS)
+                if v is None:
+                    # not evaluable in the sequence algebra: offsets that involve no running sum at all cannot be prefix sums
+                    running = any((x.k == "call" and (attr_chain(x.a[0]) or ("",))[-1] in ("cumsum", "accumulate", "cumulative_sum")) for x in walk(offs))
+                    loops = any(n_.kind == "for" for n_ in fa.cfg.nodes if fa.cfg.is_reachable(n_))
+                    if not running and not loops:
+                        ok_off = False
                 ctx.decide("C16.e", f, "offsets are the exclusive prefix sums of the operand sizes ([0] ++ cumsum(sizes))", ok_off,
-                           "offsets evaluate to %s" % layout.show_seq(v), node=r.ast, key="offsets", engine="E5")
+                           ("offsets evaluate to %s" % layout.show_seq(v)) if v is not None else
+                           "`%s` contains no running sum: from the third operand on the pieces are shifted by one operand's size instead of the total before them" % (offs,),
+                           node=r.ast, key="offsets", engine="E5")
                 ok = arrs.k == "param" and arrs.a[0] == p
                 elt = c.a[1]
                 oke = elt.k == "bin" and elt.a[0] == "+" and any(y.k == "attr" and y.a[1] in ("starts", "_starts") for y in (elt.a[1], elt.a[2]))
